@@ -598,7 +598,7 @@ def run(tier):
     # ---- correspondence inside Coq (sampled per kind)
     corr_n = 0
     if model_ok:
-        budget = {'new': 2600, 'fmt': 2200, 'fmtparse': 1500, 'add': 700, 'parse': 10**9}
+        budget = {'new': 2000, 'fmt': 1600, 'fmtparse': 1000, 'add': 600, 'parse': 10**9}
         if tier == 'thorough':
             budget = {k: v * 8 for k, v in budget.items()}
         by_kind = {}
